@@ -31,6 +31,7 @@ ATOMS = [
     (r"(?:\w+\.)*(?:streams\[\w+\]\.)?front\.consumed", "CFrontConsumed"),
     (r"(?:\w+\.)*context\.keep_alive_backend", "CKeepAliveBackend"),
     (r"front_is_h2", "CFrontIsH2"),
+    (r"interim", "CBackInterim"),
 ]
 
 STATES = ["Idle", "Link", "Linked", "Unlinked", "Recycle"]
@@ -582,7 +583,9 @@ def bb_scenarios(tier, rng):
           ("chunked_close_at", 60), ("chunked_close_at", len(HEAD_CH + CHUNKED)),
           ("close_delim_at", 50), ("close_delim_at", len(HEAD_CD + BODY)), ("keepalive_close", 0),
           ("cl_close_at", 30), ("cl_close_at", 66), ("cl_close_at", len(HEAD_CLC + BODY)), ("cl_close_twice", 0),
-          ("early_response", 0), ("continue100", 0), ("expect100", 0), ("hints103", 0)]
+          ("early_response", 0), ("continue100", 0), ("expect100", 0), ("hints103", 0),
+          ("continue_then_close", 0), ("continue_then_close", 1), ("continue_then_close", 2),
+          ("upgrade_then_close", 0), ("two_finals", 0)]
     if tier != "quick":
         s += [("close_at", k) for k in range(0, len(HEAD_CL + BODY) + 1)]
         s += [("reset_at", k) for k in range(0, len(HEAD_CL + BODY), 3)]
@@ -634,7 +637,8 @@ def extra_stage(tier, rng, work):
     # predictions
     flat, index = [], []
     for kind, k in scns:
-        if kind in ("keepalive_close", "cl_close_twice", "early_response", "continue100", "expect100", "hints103"):
+        if kind in ("keepalive_close", "cl_close_twice", "early_response", "continue100", "expect100", "hints103",
+                    "continue_then_close", "upgrade_then_close", "two_finals"):
             index.append(None)
             continue
         sch, blen = predict_inputs(kind, k)
@@ -668,6 +672,27 @@ def extra_stage(tier, rng, work):
                     bad.append((i, "bb-mismatch", "early_response: first answer observed %s" % cl[:1]))
                 if len(rs) > 1 and rs[1]["status"]:
                     bad.append((i, "bb-two-answers", "early_response: a second answer (status %d) followed the early response of the same request" % rs[1]["status"]))
+                continue
+            if kind == "continue_then_close":
+                # an interim 100 and then the backend dies: the request is owed a 502 (the interim is not an answer);
+                # the automaton: [req_head_body connect_ok req_sent back_100 (front_write) back_close] -> default 502
+                final = rs[-1] if rs[-1]["status"] or len(rs) == 1 else rs[0]
+                finals = [r for r in rs if r["status"] and r["status"] // 100 != 1]
+                if not finals or classify_obs(finals[-1]) != "default 502":
+                    bad.append((i, "bb-interim-only", "continue_then_close %d: observed %s: the request got no final answer (502 expected) after the interim response"
+                                % (k, [(r["status"], r["complete"], r["eof"], r.get("hang", 0)) for r in rs])))
+                continue
+            if kind == "upgrade_then_close":
+                ok = len(rs) == 2 and rs[0]["status"] == 101 and rs[1]["eof"] and not rs[1].get("hang") and not rs[1]["extra"]
+                if not ok:
+                    bad.append((i, "bb-upgrade", "upgrade_then_close: observed %s (expected the 101, then the end of the tunnel)"
+                                % [(r["status"], r["eof"], r.get("hang", 0), r["extra"]) for r in rs]))
+                continue
+            if kind == "two_finals":
+                ok = len(rs) == 2 and all(classify_obs(r) == "relay" and r["body"] == 20 for r in rs) and rs[0].get("b0") == 48 and rs[1].get("b0") == 66
+                if not ok:
+                    bad.append((i, "bb-cross-request", "two_finals: observed %s: the second request must get its own response (body 'B...'), not the surplus response of the first"
+                                % [(r["status"], r["body"], r.get("b0")) for r in rs]))
                 continue
             if kind in ("continue100", "expect100", "hints103"):
                 want1 = 103 if kind == "hints103" else 100
